@@ -5,7 +5,9 @@ cd /verif
 pat="${1:-}"
 for d in seeded/*${pat}*/; do
   name=$(basename $d)
-  prop=${name%%-*}
+  # the property the change breaks (meta.json breaks_property; by default the one it was written for)
+  prop=$(python3 -c "import json,sys; print(str(json.load(open('/verif/$d/meta.json')).get('breaks_property','${name%%-*}')).split()[0])" 2>/dev/null)
+  case "$prop" in C[0-9][0-9]) ;; *) prop=${name%%-*};; esac
   cd /repo || exit 2
   if [ -n "$(git status --porcelain --untracked-files=no)" ]; then echo "repo not clean"; exit 2; fi
   git apply /verif/$d/patch.diff || { echo "$name patch does not apply"; continue; }
